@@ -182,10 +182,18 @@ class Machine:
                         ok = left == right
                     elif isinstance(op, ast.NotEq):
                         ok = left != right
-                    elif isinstance(op, ast.In):
-                        ok = left in right
-                    elif isinstance(op, ast.NotIn):
-                        ok = left not in right
+                    elif isinstance(op, (ast.In, ast.NotIn)):
+                        if isinstance(right, Sym):
+                            # membership in an opaque object: by the
+                            # model of its `__contains__`, if any
+                            if '__contains__' not in self.stubs:
+                                raise Unknown(au.src(e))
+                            ok = bool(self.stubs['__contains__'](
+                                self, e, [left], {}))
+                        else:
+                            ok = left in right
+                        if isinstance(op, ast.NotIn):
+                            ok = not ok
                     elif isinstance(op, ast.Is):
                         ok = left is right
                     elif isinstance(op, ast.IsNot):
@@ -315,7 +323,12 @@ class Machine:
         if n == 'abs' and len(e.args) == 1:
             return abs(self.ev(e.args[0]))
         if n == 'len' and len(e.args) == 1:
-            return len(self.ev(e.args[0]))
+            v = self.ev(e.args[0])
+            if isinstance(v, Sym):
+                if '__len__' not in self.stubs:
+                    raise Unknown(au.src(e))
+                return self.stubs['__len__'](self, e, [], {})
+            return len(v)
         if n in ('min', 'max') and e.args and not e.keywords:
             vals = self.elements(e.args)
             return min(vals) if n == 'min' else max(vals)
@@ -406,8 +419,27 @@ class Machine:
                 raise Unknown(au.src(t))
             c[self.ev(t.slice)] = v
         elif isinstance(t, (ast.Tuple, ast.List)):
-            if not isinstance(v, tuple) or len(v) != len(t.elts):
+            if isinstance(v, (set, frozenset, dict)) or not isinstance(
+                    v, (tuple, list)):
                 raise Unknown(au.src(t))
+            stars = [k for k, x in enumerate(t.elts)
+                     if isinstance(x, ast.Starred)]
+            if len(stars) > 1:
+                raise Unknown(au.src(t))
+            if stars:
+                k = stars[0]
+                tail = len(t.elts) - k - 1
+                if len(v) < len(t.elts) - 1:
+                    raise Raised('ValueError', t)
+                for x, y in zip(t.elts[:k], v[:k]):
+                    self.store(x, y)
+                self.store(t.elts[k].value, list(v[k:len(v) - tail]))
+                if tail:
+                    for x, y in zip(t.elts[k + 1:], v[len(v) - tail:]):
+                        self.store(x, y)
+                return
+            if len(v) != len(t.elts):
+                raise Raised('ValueError', t)
             for x, y in zip(t.elts, v):
                 self.store(x, y)
         else:
